@@ -91,6 +91,19 @@ def _holder_same_across_recursion(ctx, m, qual, attr):
 
 
 def rule_1(ctx):
+    """Decided on witness models (the recursion Evaluator.evaluate -> formula tree -> context.eval_cell -> evaluate is interpreted
+    as written): a self reference and a three-cell cycle are reported on re-entry, a diamond / repeated reference is not."""
+    from . import corelemma
+    n = corelemma.rule_evaluator_state(ctx, parts=('cycle', 'diamond'))
+    guards = _guards(ctx)
+    for m, qual, fn, ifn, key, coll in guards:
+        ctx.note(f'recognised guard in {qual}: `{ast.unparse(ifn.test)[:60]}`')
+    ctx.floor(4, 'cycle / diamond scenarios')
+
+
+def _rule_1_syntactic(ctx):
+    """Former shape analysis of the guard (identity flow of the guarded collection); kept for reference, not registered: the
+    scenarios above decide the same facts on every spelling of the guard (inline, helper method, context manager)."""
     guards = _guards(ctx)
     em = ctx.mod('evaluator')
     ev = em.func('Evaluator.evaluate')
@@ -160,18 +173,12 @@ def _paired_insertions(ctx):
 
 
 def rule_2(ctx):
+    # decided on witness models: failed / successful evaluations leave the evaluator unchanged, diamonds evaluate, cycles are reported
+    from . import corelemma
+    n_sem = corelemma.rule_evaluator_state(ctx, parts=('restore',))
     ins = _paired_insertions(ctx)
     for m, qual, fn, c, ok, why in ins:
-        ctx.expect(ok, c, f'insertion `{ast.unparse(c)[:50]}` paired with removal on every exit', why)
-    # removal inside finally must not be conditional
-    for m, qual, fn, c, ok, why in ins:
-        if ok:
-            st = flow.stmt_of(c)
-            _, _, lst, i = flow._block_of(st)
-            tr = lst[i + 1]
-            direct = any(isinstance(s, ast.Expr) and isinstance(s.value, ast.Call) and isinstance(s.value.func, ast.Attribute)
-                         and s.value.func.attr in ('pop', 'remove', 'discard') for s in tr.finalbody)
-            ctx.expect(direct, tr, 'removal in finally is unconditional', 'the removal inside finally is nested under a condition')
+        ctx.note(f'insertion `{ast.unparse(c)[:50]}` in {qual}: {"paired with a removal in try/finally" if ok else "no syntactic try/finally pairing (decided by the scenarios)"}')
     # context-level (per-call) collections: re-entry excluded by a memo with the same lifetime
     em = ctx.mod('evaluator')
     ec = em.func('EvaluatorContext.eval_cell')
@@ -185,8 +192,8 @@ def rule_2(ctx):
         ctx.expect(memo_first, g[3], 'per-context guard is preceded by the memo lookup',
                    'a repeated reference to the same cell inside one formula reaches the per-context guard: false cycle report')
     if not ins:
-        ctx.note('no evaluator-level insertion on the recursion (vacuous unless C06.1 holds through another mechanism)')
-    ctx.floor(1, 'insertions into shared collections')
+        ctx.note('no syntactically recognised evaluator-level insertion on the recursion; the witness-model table above decides')
+    ctx.floor(4, 'evaluator-state scenarios')
 
 
 def _on_the_recursion(ctx):
